@@ -102,8 +102,21 @@ Definition prop_case (inp obs : list Z) : Z := prop_code (decode inp) obs.
 
 Definition finding_sig (inp obs : list Z) : Z := finding_code (decode inp) obs.
 
-(* non-trivial: some applied ConfigMap has a well-formed section with a node entry that selects
-   one of the probe nodes (so all three layers take part) *)
+(* ---------- the schemas of the five sections (apis/slo/v1alpha1/nodeslo_types.go) ---------- *)
+Definition leaves (n : nat) : list sch := repeat SLeaf n.
+Definition s_threshold : sch := SObj (leaves 19).
+Definition s_block : sch := SObj [SLeaf; SLeaf; SObj (leaves 16)].
+Definition s_class : sch :=
+  SObj [SObj (leaves 4); SObj (leaves 14); SObj [SLeaf; SArr s_block]; SObj (leaves 4); SObj (leaves 5)].
+Definition s_qos : sch := SObj [SObj (leaves 2); s_class; s_class; s_class; s_class; s_class].
+Definition s_burst : sch := SObj (leaves 5).
+Definition s_system : sch := SObj (leaves 5 ++ [SMap; SLeaf; SLeaf]).
+Definition s_hostapps : sch := SArr (SObj [SLeaf; SLeaf; SLeaf; SObj (leaves 3); SObj []]).
+Definition koord_schemas : list sch := [s_threshold; s_qos; s_burst; s_system; s_hostapps].
+
+(* non-trivial: the case is inside the hypothesis of the theorems (every tree is a value of the
+   section's Go type) and some applied ConfigMap has a well-formed section with a node entry that
+   selects one of the probe nodes (so all three layers take part) *)
 Definition sec_selects (nodes : list labels) (s : section_in) : bool :=
   match s with
   | SValue _ es => existsb (fun ls => match first_match ls es with Some _ => true | None => false end) nodes
@@ -112,5 +125,6 @@ Definition sec_selects (nodes : list labels) (s : section_in) : bool :=
 
 Definition nontrivial_case (inp : list Z) : bool :=
   let i := decode inp in
-  existsb (fun oc => match oc with Some c => existsb (sec_selects (in_nodes i)) c | None => false end)
-          (eff_syncs false (in_ops i)).
+  wf_input koord_schemas i
+  && existsb (fun oc => match oc with Some c => existsb (sec_selects (in_nodes i)) c | None => false end)
+             (eff_syncs false (in_ops i)).
